@@ -65,43 +65,7 @@ fn verif_witness_search_errors() {
 // program must compile, the mutant must parse without syntax errors and must be rejected.
 #[test]
 fn verif_witness_search_single_fault_mutants() {
-  let base = r#"interface Shape { method area(): int }
-interface Comparable<T> { method compare(other: T): int }
-class Opt<T>(None, Some(T)) {
-  method isNone(): bool = match (this) { None -> true, Some(_) -> false }
-  method <R> map(f: (T) -> R): Opt<R> = match (this) { None -> Opt.None<R>(), Some(v) -> Opt.Some(f(v)) }
-}
-class Pair<A, B>(val first: A, val second: B) {
-  method swap(): Pair<B, A> = Pair.init(this.second, this.first)
-}
-class Sq(val side: int) : Shape, Comparable<Sq> {
-  method area(): int = this.side * this.side
-  method compare(other: Sq): int = this.side - other.side
-}
-class Cmp { function <C: Comparable<C>> max(a: C, b: C): C = if a.compare(b) < 0 { b } else { a } }
-class Item(val tag: Opt<int>, val weight: int) {}
-class Main {
-  function add(a: int, b: int): int = a + b
-  function <T> first(a: T, b: T): T = a
-  function sign(a: int): int = if a < 0 { 0 - 1 } else if a == 0 { 0 } else { 1 }
-  function total(item: Item): int = match (item) { { tag as Some(n), weight } -> n + weight, { tag as None, weight } -> weight }
-  function weigh(item: Item): int = { let { tag as _, weight } = item; weight }
-  function size(o: Opt<Sq>): int = match (o) { None -> 0, Some(s) -> s.area() }
-  function both(p: Pair<Opt<int>, bool>): int = match (p) { { first as Some(n), second } -> n, { first as None, second } -> 0 }
-  function apply(f: (int, int) -> int): int = f(1, 2)
-  function main(): unit = {
-    let a = Main.add(1, 2);
-    let o = Opt.Some(a).map((x) -> x + 1);
-    let e = Opt.None<int>();
-    let n = Opt.None<bool>();
-    let p = Pair.init(o, true).swap().swap();
-    let (x, y) = (1, 2);
-    let big = Cmp.max(Sq.init(2), Sq.init(3));
-    let f: (int, int) -> int = Main.add;
-    let s = "n=" :: Str.fromInt(Main.first(a, x) + Main.sign(y) + Main.total(Item.init(e, 3)) + Main.both(p) + Main.apply(f));
-    let _ = Process.println(if o.isNone() && !e.isNone() || n.isNone() { s } else { Str.fromInt(Main.size(Opt.Some(big)) + Main.weigh(Item.init(o, 4))) });
-  }
-}"#;
+  let base = SINGLE_FAULT_BASE;
   let mutants: [(&str, &str, &str); 59] = [
     // operands and arguments of the wrong type
     ("operand of + is a bool", "let a = Main.add(1, 2);", "let a = Main.add(1, 2) + true;"),
@@ -208,6 +172,97 @@ class Main {
     }
   }
   println!("WITNESS-SEARCH: no violating history found ({} single-fault mutants of an accepted program)", mutants.len());
+}
+
+const SINGLE_FAULT_BASE: &str = r#"interface Shape { method area(): int }
+interface Comparable<T> { method compare(other: T): int }
+class Opt<T>(None, Some(T)) {
+  method isNone(): bool = match (this) { None -> true, Some(_) -> false }
+  method <R> map(f: (T) -> R): Opt<R> = match (this) { None -> Opt.None<R>(), Some(v) -> Opt.Some(f(v)) }
+}
+class Pair<A, B>(val first: A, val second: B) {
+  method swap(): Pair<B, A> = Pair.init(this.second, this.first)
+}
+class Sq(val side: int) : Shape, Comparable<Sq> {
+  method area(): int = this.side * this.side
+  method compare(other: Sq): int = this.side - other.side
+}
+class Cmp { function <C: Comparable<C>> max(a: C, b: C): C = if a.compare(b) < 0 { b } else { a } }
+class Item(val tag: Opt<int>, val weight: int) {}
+class Main {
+  function add(a: int, b: int): int = a + b
+  function <T> first(a: T, b: T): T = a
+  function sign(a: int): int = if a < 0 { 0 - 1 } else if a == 0 { 0 } else { 1 }
+  function total(item: Item): int = match (item) { { tag as Some(n), weight } -> n + weight, { tag as None, weight } -> weight }
+  function weigh(item: Item): int = { let { tag as _, weight } = item; weight }
+  function size(o: Opt<Sq>): int = match (o) { None -> 0, Some(s) -> s.area() }
+  function both(p: Pair<Opt<int>, bool>): int = match (p) { { first as Some(n), second } -> n, { first as None, second } -> 0 }
+  function apply(f: (int, int) -> int): int = f(1, 2)
+  function main(): unit = {
+    let a = Main.add(1, 2);
+    let o = Opt.Some(a).map((x) -> x + 1);
+    let e = Opt.None<int>();
+    let n = Opt.None<bool>();
+    let p = Pair.init(o, true).swap().swap();
+    let (x, y) = (1, 2);
+    let big = Cmp.max(Sq.init(2), Sq.init(3));
+    let f: (int, int) -> int = Main.add;
+    let s = "n=" :: Str.fromInt(Main.first(a, x) + Main.sign(y) + Main.total(Item.init(e, 3)) + Main.both(p) + Main.apply(f));
+    let _ = Process.println(if o.isNone() && !e.isNone() || n.isNone() { s } else { Str.fromInt(Main.size(Opt.Some(big)) + Main.weigh(Item.init(o, 4))) });
+  }
+}"#;
+
+// Bounded exploration for C05 (no crash on any input): the front end and the compiler driver must return — with
+// diagnostics or with code — and never panic, on every prefix of an accepted program (cut every few characters),
+// on the program with any one of its tokens deleted, and with any one of its tokens doubled.
+#[test]
+fn verif_witness_search_no_crash() {
+  let base = SINGLE_FAULT_BASE;
+  let mut inputs: Vec<(String, String)> = Vec::new();
+  let boundaries: Vec<usize> = base.char_indices().map(|(i, _)| i).collect();
+  for (k, cut) in boundaries.iter().enumerate() {
+    if k % 9 == 0 {
+      inputs.push((format!("the first {cut} bytes of the accepted program"), base[..*cut].to_string()));
+    }
+  }
+  let tokens: Vec<&str> = base.split_inclusive(|c: char| c.is_whitespace() || "(){}<>,;:.".contains(c)).collect();
+  for k in 0..tokens.len() {
+    if k % 3 == 0 {
+      let mut t = tokens.clone();
+      let removed = t.remove(k);
+      inputs.push((format!("the accepted program without its token #{k} `{}`", removed.trim()), t.concat()));
+    }
+    if k % 5 == 0 {
+      let mut t = tokens.clone();
+      t.insert(k, tokens[k]);
+      inputs.push((format!("the accepted program with its token #{k} `{}` doubled", tokens[k].trim()), t.concat()));
+    }
+  }
+  let std_sources = {
+    let heap = &mut Heap::new();
+    samlang_parser::builtin_std_raw_sources(heap).into_iter().map(|(m, s)| (m.pretty_print(heap), s)).collect::<Vec<_>>()
+  };
+  let _ = std_sources;
+  std::panic::set_hook(Box::new(|_| {}));
+  let mut n = 0usize;
+  for (what, text) in inputs.iter() {
+    let outcome = std::panic::catch_unwind(|| {
+      let heap = &mut Heap::new();
+      let mod_ref = heap.alloc_module_reference_from_string_vec(vec!["Demo".to_string()]);
+      let mut sources = HashMap::from([(mod_ref, text.to_string())]);
+      for (m, s) in samlang_parser::builtin_std_raw_sources(heap) {
+        sources.insert(m, s);
+      }
+      compile_sources(heap, sources, vec![mod_ref], false).is_ok()
+    });
+    n += 1;
+    if let Err(e) = outcome {
+      let message = e.downcast_ref::<String>().cloned().or_else(|| e.downcast_ref::<&str>().map(|s| s.to_string())).unwrap_or_default();
+      println!("WITNESS: the compiler panicked ({}) on {what}: {}", message.replace('\n', " "), text.replace('\n', " "));
+      return;
+    }
+  }
+  println!("WITNESS-SEARCH: no violating history found ({n} damaged versions of an accepted program went through the compiler without a panic)");
 }
 
 // Witness search for unit `loopvars` (C01): self tail calls that permute or shift their parameters; the
